@@ -459,6 +459,30 @@ def c14_mask_false_assess():
     assert float(score) == 0.0
     return float(score)
 
+@probe
+def c05_scan_switch_empty_update():
+    """an empty Update with unchanged arguments on scan(switch) must keep every choice and have weight 0 (found by the round-2 C10 sub-agent)"""
+    import genjax
+    @gen
+    def b0(c):
+        return normal(c, 1.0) @ "x"
+    @gen
+    def b1(c):
+        return normal(c, 2.0) @ "x"
+    sw = genjax.switch(b0, b1)
+    @genjax.scan(n=3)
+    @gen
+    def step(c, i):
+        w = sw(i, (c,), (c,)) @ "s"
+        return c, w
+    args = (0.5, jnp.array([0, 1, 0]))
+    tr = step.simulate(key, args)
+    new, w, _, _ = Update(C.n()).edit(jax.random.key(7), tr, Diff.no_change(args))
+    old_x, new_x = jtu.tree_leaves(tr.get_choices()), jtu.tree_leaves(new.get_choices())
+    assert all(bool(jnp.allclose(a, b)) for a, b in zip(old_x, new_x)), (old_x, new_x)
+    assert abs(float(w)) < 1e-6, w
+    return float(w)
+
 if __name__ == "__main__":
     names = sys.argv[1:] or list(P)
     bad = 0
